@@ -38,12 +38,15 @@ FewPaths == {<<"add_path", <<"n1", "l1", "n2">>, "o1", "d1">>,
              <<"add_path", <<"n1", "l1">>, "o1", "">>,
              <<"add_path", <<"n1">>, "o1", "">>,
              <<"add_path", <<"n1", "n2">>, "", "">>}
+\* whole stretches with their boundary elements in one call: near-valid networks within a few calls
+ValidPaths == {<<"add_path", p, o, d>> : p \in {<<"n1", "l1", "n2">>, <<"n2", "l2", "n3">>, <<"n1", "l1", "n2", "l2", "n3">>},
+                                         o \in {"", "o1", "r1"}, d \in {"", "d1"}}
 RECURSIVE SeqsUpTo(_, _)
 SeqsUpTo(A, k) == IF k = 0 THEN {<<>>} ELSE LET P == SeqsUpTo(A, k - 1) IN P \cup {Append(p, a) : p \in {q \in P : Len(q) = k - 1}, a \in A}
 AllPaths == {<<"add_path", p, o, d>> : p \in SeqsUpTo(Objs, MaxPath), o \in {"", "o1"}, d \in {"", "d1"}}
 
 Calls == CASE Profile = "cache" -> SingleMut \cup ReadCalls \cup ViewCalls \cup BulkCalls \cup FewPaths
-           [] Profile = "valid" -> SingleMut
+           [] Profile = "valid" -> SingleMut \cup ValidPaths
            [] Profile = "path"  -> AllPaths \cup {<<"add_link", "n1", "l1", "n2">>, <<"add_origin", "o1", "n1">>, <<"add_node", "n2">>}
 
 CallEnabled(c) == c[1] \in {"out_links", "in_links"} => c[2] \in Range(S.nodes)
